@@ -173,4 +173,6 @@ def check(rep, F, tier, replay=None):
                 rep.violation("TARGET", "%s|pass-through" % key, "%s no longer hands its address parameter through unchanged" % key, {})
     from ruleutil import arith_unused_rule
     arith_unused_rule(rep, F, ["src/builders/batch_tools/", "src/builders/tx_batch_builder.rs"])
+    from ruleutil import batch_total_rule
+    batch_total_rule(rep, F)
     return rep.finish(EXPLANATION, ["the categorizer stores the address parameter unchanged (AssetCategorizer::new / TxOutputProposal::new clone it)"], ["csl-facts driver (HIR/MIR)", "tables/conway_cddl.json (set types, tag 258)", "E2 writer tables"])
